@@ -121,14 +121,14 @@ theorem C28_inv_step (cfg : Cfg) (hc : cfg.covers = true) (s : St) (op : Op) (hs
       · rename_i d n hm
         have := modAt_sound (f := applyL cfg m) (fun t t' n ht h => applyL_sound hc ht (by simpa [Op.argsW] using ha) h) p s.doc d n h1 hm
         exact ⟨this.1, by simp [this.2], h3⟩
-      · exact ⟨h1, h2, h3⟩
+      · exact ⟨h1, fun hd => h2 (by simpa using (Bool.or_eq_false_iff.1 hd).1), h3⟩
   | dmut p m =>
       simp only [step]
       split
       · rename_i d n hm
         have := modAt_sound (f := applyD cfg m) (fun t t' n ht h => applyD_sound hc ht (by simpa [Op.argsW] using ha) h) p s.doc d n h1 hm
         exact ⟨this.1, by simp [this.2], h3⟩
-      · exact ⟨h1, h2, h3⟩
+      · exact ⟨h1, fun hd => h2 (by simpa using (Bool.or_eq_false_iff.1 hd).1), h3⟩
   | read p => exact ⟨h1, h2, h3⟩
   | touch => exact ⟨h1, by simp [step], h3⟩
   | assign v => exact ⟨by simpa [Op.argsW, step] using ha, by simp [step], h3⟩
@@ -176,13 +176,14 @@ theorem C28_uncovered_silent (cfg : Cfg) (w : Bool) (xs : Items) (m : LMut) (h :
 /-- reads never mark the object modified (nor change anything else) -/
 theorem C28_read_clean (cfg : Cfg) (s : St) (p : List Step) : (step cfg s (.read p)).1 = s := rfl
 
-/-- a mutator that raises leaves value and status as they were -/
+/-- a mutator that raises leaves the value and the database as they were -/
 theorem C28_error_unchanged (cfg : Cfg) (s : St) (p : List Step) (m : LMut) (e : Err)
-    (h : (step cfg s (.lmut p m)).2 = some e) : (step cfg s (.lmut p m)).1 = s := by
+    (h : (step cfg s (.lmut p m)).2 = some e) :
+    (step cfg s (.lmut p m)).1.doc = s.doc ∧ (step cfg s (.lmut p m)).1.db = s.db := by
   simp only [step] at h ⊢
   split
   · rename_i hm; simp [hm] at h
-  · rfl
+  · exact ⟨rfl, rfl⟩
 
 /-- the observation point of the property: when the session ends and a new session reads the value (`v` = what the database
     returns), `v` is the value the old session saw (as JSON, up to the order of object keys) and it is fully wrapped again -/
